@@ -498,3 +498,63 @@ def bool_true_requires(fv, name, brs=None, depth=2):
                     gs |= {(g2, frozenset(l2), h2) for g2, l2, h2 in bool_true_requires(fv, g[1], brs, depth - 1)}
             common = gs if common is None else (common & gs)
     return [(g, set(lab), how) for g, lab, how in (common or set())]
+
+
+def back_slice_calls(prog, fv, start_locals, max_hops=120):
+    """Names of the functions whose results can flow into the given locals: definitions are followed backwards through copies,
+    aggregates, projections, several definitions (match arms) and call arguments; closures passed along contribute the functions
+    they call.  Coroutine state fields are followed by field name."""
+    calls, seen, work, hops = set(), set(), [("l", l) for l in start_locals], 0
+    fdefs = {}
+    for bi in fv.live:
+        for st in fv.blocks[bi]["s"]:
+            if "rv" in st:
+                nm = None
+                for e in st["p"].get("p") or []:
+                    if isinstance(e, dict) and e.get("n"):
+                        nm = e["n"]
+                if nm:
+                    fdefs.setdefault(nm, []).append(st)
+
+    def scan(x, out_l, out_f):
+        if isinstance(x, dict):
+            if isinstance(x.get("l"), int):
+                out_l.add(x["l"])
+                for e in x.get("p") or []:
+                    if isinstance(e, dict) and e.get("n"):
+                        out_f.add(e["n"])
+            if x.get("r") == "agg" and x.get("k") == "closure" and x.get("def") in prog.ix:
+                for k in prog.callees(x["def"]):
+                    if k in prog.ix:
+                        calls.add(prog.name(k))
+            for v in x.values():
+                scan(v, out_l, out_f)
+        elif isinstance(x, list):
+            for v in x:
+                scan(v, out_l, out_f)
+    while work and hops < max_hops:
+        hops += 1
+        kind, l = work.pop()
+        if (kind, l) in seen:
+            continue
+        seen.add((kind, l))
+        sts = []
+        if kind == "l":
+            for bi, si, st in fv.defs().get(l, []):
+                if bi not in fv.live:
+                    continue
+                if si == "t":
+                    t = fv.blocks[bi]["t"]
+                    calls.update(n for n in ([t["f"].get("name")] + [t["f"].get("rname")]) if n)
+                    ol, of = set(), set()
+                    scan(t.get("args", []), ol, of)
+                    work += [("l", x) for x in ol] + [("f", x) for x in of]
+                else:
+                    sts.append(st)
+        else:
+            sts = fdefs.get(l, [])
+        for st in sts:
+            ol, of = set(), set()
+            scan(st["rv"], ol, of)
+            work += [("l", x) for x in ol] + [("f", x) for x in of]
+    return calls
